@@ -47,7 +47,7 @@ def _mk_corpus():
                 add(sub + "/" + fn, {fn: rd(os.path.join(d, fn))}, fn, fn, args, ["pf", "pfe", "ig"])
     fx = common.FIX
     a, b, c = (rd(os.path.join(fx, "libs", x, x + ".h")) for x in "abc")
-    add("fix/rich.h", {"rich.h": rd(os.path.join(fx, "single/rich.h"))}, "rich.h", "rich.h", ["-D__cplusplus"], ["pf", "pfe", "ig"])
+    add("fix/rich.h", {"rich.h": rd(os.path.join(fx, "single/rich.h"))}, "rich.h", "rich.h", ["-D__cplusplus"], ["pf", "pfe", "ig", "igc", "igo"])
     add("fix/a.h", {"a.h": a}, "a.h", "a.h", ["-D__cplusplus"], ["pf", "ig"])
     add("fix/b.h:inc", {"a.h": a, "b.h": b}, "b.h", "a.h", ["-D__cplusplus"], ["pf", "ig"])
     add("fix/c.h", {"a.h": a, "b.h": b, "c.h": c}, "c.h", "c.h", ["-D__cplusplus"], ["pf", "ig"])
@@ -56,7 +56,7 @@ def _mk_corpus():
     add("corpus/scan1.h", {"scan1.h": s1}, "scan1.h", "scan1.h", ["-D__cplusplus"], ["pf", "pfe", "ig"])
     add("corpus/scan2.c", {"scan2.c": s2, "scan_inc.h": si}, "scan2.c", "scan2.c", [], ["pf", "pfe", "ig"])
     add("corpus/scan2.c:inc", {"scan2.c": s2, "scan_inc.h": si}, "scan2.c", "scan_inc.h", [], ["pf", "pfe", "ig"])
-    add("corpus/igate.h", {"igate.h": rd(os.path.join(cd, "igate.h"))}, "igate.h", "igate.h", ["-D__cplusplus"], ["pf", "ig"])
+    add("corpus/igate.h", {"igate.h": rd(os.path.join(cd, "igate.h"))}, "igate.h", "igate.h", ["-D__cplusplus"], ["pf", "ig", "igc", "igo"])
     # a seeded overload-heavy header of the generator the other scenarios use
     gen = common.big_header(20261002, 6).encode()
     add("gen/big.h", {"big.h": gen}, "big.h", "big.h", ["-D__cplusplus"], ["pf", "ig"])
@@ -65,6 +65,10 @@ def _mk_corpus():
     first = b'#include "once.h"\nclass FirstThing : public OnceThing {\n__published:\n  FirstThing();\n  int first_value(int a = 3) const;\n};\nint first_function(FirstThing *t);\n'
     add("multi/first+once", {"first.h": first, "once.h": once}, ["first.h", "once.h"], "first.h", ["-D__cplusplus"], ["pf", "ig"])
     add("multi/first+a", {"first.h": first, "once.h": once, "a.h": a}, ["first.h", "a.h"], "first.h", ["-D__cplusplus"], ["ig"])
+    # reproducers of defects an audit of the unmodified tree found (DESIGN.md section 12): all backends, -promiscuous too
+    ad = os.path.join(cd, "audit")
+    for fn in sorted(os.listdir(ad)):
+        add("audit/" + fn, {fn: rd(os.path.join(ad, fn))}, fn, fn, ["-D__cplusplus"], ["pf", "ig", "igc", "igo"])
     nh, nn = rd(os.path.join(cd, "nfile.h")), rd(os.path.join(cd, "nfile.N"))
     add("corpus/nfile.N", {"nfile.h": nh, "nfile.N": nn}, "nfile.h", "nfile.N", ["-D__cplusplus"], ["ig"])
     add("corpus/nfile2.N", {"nfile.h": nh, "nfile.N": rd(os.path.join(cd, "nfile2.N"))}, "nfile.h", "nfile.N", ["-D__cplusplus"], ["ig"])
@@ -270,8 +274,9 @@ def _argv(ent, job, kind, root):
         return [build.tool(kind, "parse_file")] + ent["args"] + [pinc, "-Isrc"] + ["src/" + m for m in mains]
     if job == "pfe":
         return [build.tool(kind, "parse_file"), "-E"] + ent["args"] + [pinc, "-Isrc"] + ["src/" + m for m in mains]
-    return [build.tool(kind, "interrogate"), "-oc", "out/x.cxx", "-od", "out/x.in", "-oh", "out/x.txt", "-module", "m", "-library", "libx",
-            "-python-native"] + ent["args"] + [pinc, "-srcdir", "src"] + mains
+    backend = {"ig": ["-python-native"], "igc": ["-c", "-promiscuous"], "igo": ["-python-obj", "-promiscuous"]}[job]
+    return [build.tool(kind, "interrogate"), "-oc", "out/x.cxx", "-od", "out/x.in", "-oh", "out/x.txt", "-module", "m", "-library", "libx"] + \
+        backend + ent["args"] + [pinc, "-srcdir", "src"] + mains
 
 
 def _run(ent, job, kind, fault, tag):
@@ -314,7 +319,7 @@ def execute(plan):
     tag = "%016x" % fnv1a(json.dumps(plan, sort_keys=True))
     r, outs = _run(ent, job, kind, fault, tag)
     violations = []
-    tool = "interrogate" if job == "ig" else "parse_file"
+    tool = "interrogate" if job.startswith("ig") else "parse_file"
     crashed = r.crashed or (r.status is not None and r.status not in (0, 1, 255) and r.status >= 126)
     if crashed:
         site = "unknown"
@@ -326,6 +331,13 @@ def execute(plan):
             # identify the site by re-running the same damaged input on the sanitized build
             r2, _ = _run(ent, job, "san", fault, tag + "s")
             site = crash_site(r2.stderr) if r2.crashed else "rel-only"
+        for attempt in range(3):
+            if site != "stack-overflow":
+                break
+            # the sanitizer runtime sometimes fails to unwind an exhausted stack; the class key must not depend on that
+            r2, _ = _run(ent, job, "san", fault, tag + "s%d" % attempt)
+            if r2.crashed:
+                site = crash_site(r2.stderr)
         if r.timeout and runner.LAST_HANG_STACK:
             site_note = "; stack when killed: " + runner.LAST_HANG_STACK
         else:
